@@ -585,3 +585,41 @@ def check_live(run, res):
           res.violate('live-trace', {'op': 'start' if k == 'start' else 'step', 'got': 'wrong-line'},
                       '%s: live trace line %r does not describe record %s' % (head, line, t[:3]))
           return
+
+
+def check_defer_holdback(run, res):
+  """C15 on small capacities: whatever overflow displaces, an event that is deferred and not
+  yet recalled is never dispatched, and recall returns the oldest deferred event still held"""
+  held = set()
+  prev_deferred = []
+  for i, ob in enumerate(run.steps):
+    k = ob.op[0]
+    if ob.exc is not None:
+      res.violate('op-raised', {'op': k, 'exc': ob.exc}, 'op#%d %s raised %s\n%s' % (i, ob.op, ob.exc, ob.tb))
+      return
+    # events deferred by handlers during this op: the fx records carry the uid of the deferring step
+    cur = None
+    for r in ob.recs:
+      if r[0] == 'dispatch':
+        cur = r[3]
+        if cur in held:
+          res.violate('deferred-dispatched-before-recall', {},
+                      'op#%d %s dispatched %s which is deferred and was never recalled (deferred queue before the op: %s)' % (i, ob.op, cur, prev_deferred))
+          return
+      elif r[0] == 'fx' and r[1] == 'defer' and cur is not None:
+        held.add(cur)
+    if k == 'defer':
+      # the uid of an externally deferred event: the newest entry of the deferred queue
+      if ob.deferred:
+        held.add(ob.deferred[-1])
+    elif k == 'recall':
+      want = prev_deferred[0] if prev_deferred else None
+      if ob.ret != want:
+        res.violate('recall-return', {'want_none': want is None}, 'op#%d recall() returned %r, the oldest deferred event held was %r' % (i, ob.ret, want))
+        return
+      held.discard(ob.ret)
+    if ob.deferred is not None:
+      # events displaced from a full deferred queue are gone for good
+      held &= set(ob.deferred) | set(x for x in held if x not in prev_deferred)
+      held = set(x for x in held if x in ob.deferred)
+      prev_deferred = list(ob.deferred)
